@@ -83,6 +83,7 @@ type Plan struct {
 	QidType    uint8         // Tattach/Tcreate: type bits of the returned qid (Tattach default QTDIR)
 	ReadN      int           // Tread: bytes to return (-1 = count)
 	Twice      bool          // call Respond a second time after answering
+	ThenError  string        // after the answer, answer once more with this error text (a confused worker's second, different answer)
 	TwiceFull  bool          // give the whole answer a second time (pack it again, then Respond), as a confused worker would
 	NoAnswer   bool          // return without answering (the harness answers later through Pending)
 	OnFlush    string        // with FlushOp: "cancel" calls req.Flush(), "ignore" does nothing
@@ -439,6 +440,9 @@ func (o *Ops) finish(req *go9p.SrvReq, conn int, p *Plan, op string, answer func
 		} else {
 			answer()
 		}
+	}
+	if p.ThenError != "" {
+		req.RespondError(&go9p.Error{Err: p.ThenError, Errornum: 99})
 	}
 	o.Log.Add(Event{Kind: "exit", Conn: conn, Tag: tag, Op: op})
 }
